@@ -20,8 +20,9 @@ Built on dialect "sp" (tools/rs2lean_gensparse.py: parser `P`, generator `Fn`, t
                = `Rs.cmp3 a b gt lt eq` (arms in canonical order whatever their order in the text);
                a `let` in a nested block may shadow an outer variable (fresh Lean name)
   values       `Some(e)` / `None`, array literals `[a, b, c, d]` (lists), constants of the spec (`MAX_CELLS`, … = the
-               definitions of `Gen/Limits.lean`), enums of the spec (Lean `inductive`s generated from the spec, the Rust
-               declaration pinned), opaque types (`generics` of a function: Lean type variables)
+               definitions of `Gen/Limits.lean`), enums of the spec (Lean `inductive`s generated from the spec, or — with
+               `enums_external` — the ones of `RsSemGenalign.lean`: the trusted reading of bio-types), signed `*`
+               (`Rs.imul`), opaque types (`generics` of a function: Lean type variables)
   holes        `let_holes`: the initialiser of a function-level `let` named in the spec becomes a separate definition
                `<fn>_<var>` over **all** parameters of the function (the tuning constant `lazy_extend` of
                `set_boundaries`); the function calls it.  Equality theorems are stated for every value it returns.
@@ -275,7 +276,7 @@ class BFn(Fn):
         tv = self.tmp()
         if ac.get("self_mut"):
             if isinstance(rt, TUnit):
-                blk.bind(tv, "%s %s" % (ac["lean"], " ".join(parts)))
+                (blk.bind if ac.get("monadic", True) else blk.let)(tv, "%s %s" % (ac["lean"], " ".join(parts)))
                 return None, rt, tv
             ts = self.tmp()
             blk.bind("(%s, %s)" % (tv, ts), "%s %s" % (ac["lean"], " ".join(parts)))
@@ -343,6 +344,18 @@ class BFn(Fn):
         tv = self.tmp()
         blk.bind(tv, callee)
         return tv, sg["ret"]
+
+    def binary(self, e, blk, exp):
+        if e.op == "*":
+            saved = (len(blk.lines), self.n_tmp)
+            l, r, t = self.pair(e.l, e.r, blk, exp if isinstance(exp, TInt) else None)
+            if isinstance(t, TInt) and t.signed:
+                tv = self.tmp()
+                blk.bind(tv, "Rs.imul %d %s %s" % (t.w, atom(l), atom(r)))
+                return tv, t
+            del blk.lines[saved[0]:]
+            self.n_tmp = saved[1]
+        return Fn.binary(self, e, blk, exp)
 
     def match_value(self, e, blk, exp):
         sc = e.scrut
@@ -534,8 +547,15 @@ class BFn(Fn):
             v = self.declare(s.pat.name, ann, s)
             blk.bind(v.lean, "%s%s%s" % (name, self.abs_use(), "".join(" " + p.lean for p in self.params)))
             return
-        if s.init is not None and s.ty is None and s.init.kind in ("if", "match"):
-            pass
+        loc = self.f.get("locals", {})
+        if s.init is not None and s.ty is None and s.pat.kind == "ptuple" and s.init.kind == "tuple" \
+                and len(s.pat.items) == len(s.init.items) and all(q.kind == "pvar" and q.name in loc for q in s.pat.items):
+            tys = [self.ty_of_text(loc[q.name]) for q in s.pat.items]
+            x, t = self.ex(s.init, blk, TTup(tys))
+            if t != TTup(tys):
+                self.err("`let (…)`: the initialiser has type %r, the spec declares %r" % (t, TTup(tys)), s)
+            blk.let(self.bind_pat(s.pat, t, s), x)
+            return
         return Fn.let(self, s, blk)
 
     def expr_stmt(self, e, blk):
@@ -761,7 +781,7 @@ def translate_unit(src, unit, fail):
     txt.append("open RbV RbV.Rs")
     txt.append("")
     h = BFn(unit, dict(lean="_", params=[]), {})
-    for en, ctors in unit.get("enums", {}).items():
+    for en, ctors in ({} if unit.get("enums_external") else unit.get("enums", {})).items():
         txt.append(enum_decl(en, ctors, lambda a: h.ty_of_text(a).lean()))
         txt.append("")
     for f, line, body, helpers, main in out_fns:
@@ -818,14 +838,24 @@ SDPKPP_T = "List (Nat × Nat) → Nat → Nat → Int → Int → Res (List Nat 
 FKM_T = "List Nat → List Nat → Nat → Res (List (Nat × Nat))"
 SDPKPP_CALL = {"sparse::sdpkpp": dict(lean="sdpkpp", params=["&[(u32, u32)]", "usize", "u32", "i32", "i32"],
                                       ret="SparseAlignmentResult", monadic=True)}
+KHASH = "&HashMapFx<&[u8], Vec<u32>>"
+SD = ("sdpkpp", SDPKPP_T)
+FKM = ("findKmerMatches", FKM_T)
+FS2 = ("findSeq2Hashed", "List Nat → Rs.HMap (List Nat) (List Nat) → Nat → Res (List (Nat × Nat))")
+EXP = ("expandKmerMatches", "List Nat → List Nat → Nat → List (Nat × Nat) → Nat → Res (List (Nat × Nat))")
+UN = ("unionPath", "List (Nat × Nat) → Nat → Nat → Int → Int → Res (List Nat)")
 P_XYKWS = [("x", "TextSlice"), ("y", "TextSlice"), ("k", "usize"), ("w", "usize"), ("scoring", "&Scoring<F>")]
+
+FT = ("fillTrace", "%s → List Nat → List Nat → Nat → Nat → Res ((%s) × (%s))" % (ALIGNER_T, ALN_T, ALIGNER_T))
+FC = ("filterClip", "%s → %s" % (ALN_T, ALN_T))
+FC_CALL = {"Alignment::filter_clip_operations": dict(lean="filterClip", params=[], self_mut=True, monadic=False)}
 
 unit(
     name="SrcBand", props="property C02", file=BANDED, imports=["RbV.Gen.Limits"],
     structs=BAND_STRUCTS, pinned_items=BAND_PINNED + [
         "pub struct Aligner<F: MatchFunc> { S: [Vec<i32>; 2], I: [Vec<i32>; 2], D: [Vec<i32>; 2], Lx: Vec<usize>, Ly: Vec<usize>, "
         "Sn: Vec<i32>, traceback: Traceback, scoring: Scoring<F>, band: Band, k: usize, w: usize, }"],
-    consts=BAND_CONSTS, enums=BAND_ENUMS,
+    consts=BAND_CONSTS, enums=BAND_ENUMS, enums_external=True,
     functions=[
         dict(name="continues", lean="continues", callkey="(u32, u32)::continues", self="(u32, u32)",
              header="fn continues(&self, p: Option<(u32, u32)>) -> bool", params=[("p", "Option<(u32, u32)>")], ret="bool",
@@ -862,26 +892,77 @@ unit(
         dict(name="Band::create_with_matches", lean="createWithMatches", callkey="Band::create_with_matches",
              header="fn create_with_matches<F: MatchFunc>( x: TextSlice<'_>, y: TextSlice<'_>, k: usize, w: usize, "
                     "scoring: &Scoring<F>, matches: &[(u32, u32)], ) -> Band",
-             params=P_XYKWS + [("matches", "&[(u32, u32)]")], ret="Band", abstract=[("sdpkpp", SDPKPP_T)],
+             params=P_XYKWS + [("matches", "&[(u32, u32)]")], ret="Band", abstract=[SD],
              abs_calls=SDPKPP_CALL, theorem="RbV.Thm.GenSrcBand.createWithMatches_eq_model"),
         dict(name="Band::create", lean="create", callkey="Band::create",
              header="fn create<F: MatchFunc>( x: TextSlice<'_>, y: TextSlice<'_>, k: usize, w: usize, scoring: &Scoring<F>, ) -> Band",
-             params=P_XYKWS, ret="Band", abstract=[("sdpkpp", SDPKPP_T), ("findKmerMatches", FKM_T)],
+             params=P_XYKWS, ret="Band", abstract=[SD, FKM],
              abs_calls={"sparse::find_kmer_matches": dict(lean="findKmerMatches", params=["TextSlice", "TextSlice", "usize"],
                                                           ret="Vec<(u32, u32)>", monadic=True)},
              theorem="RbV.Thm.GenSrcBand.create_eq_model"),
-        # the head of `compute_alignment`: budget guard and empty-input test; the DP itself (from `self.traceback.init(m, n);`
-        # on) and `degenerate_alignment` are abstract parameters
+        dict(name="Band::create_with_prehash", lean="createWithPrehash", callkey="Band::create_with_prehash",
+             header="fn create_with_prehash<F: MatchFunc>( x: TextSlice<'_>, y: TextSlice<'_>, k: usize, w: usize, "
+                    "scoring: &Scoring<F>, y_kmer_hash: &HashMapFx<&[u8], Vec<u32>>, ) -> Band",
+             params=P_XYKWS + [("y_kmer_hash", KHASH)], ret="Band", abstract=[SD, FS2],
+             abs_calls={"sparse::find_kmer_matches_seq2_hashed": dict(lean="findSeq2Hashed", params=["TextSlice", KHASH, "usize"],
+                                                                      ret="Vec<(u32, u32)>", monadic=True)},
+             theorem="RbV.Thm.GenSrcBandGlue.createWithPrehash_eq"),
+        dict(name="Aligner::degenerate_alignment", lean="degenerateAlignment", callkey="Aligner::degenerate_alignment",
+             self="Aligner", generics={"Dp": "Dp"}, header="fn degenerate_alignment(&self, m: usize, n: usize) -> Alignment",
+             params=[("m", "usize"), ("n", "usize")], ret="Alignment",
+             locals={"operations": "Vec<AlignmentOperation>", "xstart": "usize", "xend": "usize", "ystart": "usize",
+                     "yend": "usize", "score": "i32"},
+             theorem="RbV.Thm.GenSrcBandGlue.degenerate_eq_model"),
+        # `compute_alignment`: budget guard and empty-input test; the DP itself (from `self.traceback.init(m, n);` on) is the
+        # abstract parameter `fillTrace`
         dict(name="Aligner::compute_alignment", lean="computeAlignment", callkey="Aligner::compute_alignment", self="Aligner",
              self_mut=True, generics={"Dp": "Dp"},
              header="fn compute_alignment(&mut self, x: TextSlice<'_>, y: TextSlice<'_>) -> Alignment",
-             params=[("x", "TextSlice"), ("y", "TextSlice")], ret="Alignment",
-             abstract=[("degenerate", "%s → Nat → Nat → %s" % (ALIGNER_T, ALN_T)),
-                       ("fillTrace", "%s → List Nat → List Nat → Nat → Nat → Res ((%s) × (%s))" % (ALIGNER_T, ALN_T, ALIGNER_T))],
-             abs_calls={"Aligner::degenerate_alignment": dict(lean="degenerate", params=["usize", "usize"], ret="Alignment",
-                                                              monadic=False)},
+             params=[("x", "TextSlice"), ("y", "TextSlice")], ret="Alignment", abstract=[FT],
              rest_call=dict(marker="self.traceback.init(m, n);", lean="fillTrace", args=["self", "x", "y", "m", "n"]),
              theorem="RbV.Thm.GenSrcBand.computeAlignment_guard_eq"),
+        # the nine entry points
+        dict(name="Aligner::custom", lean="custom", callkey="Aligner::custom", self="Aligner", self_mut=True, generics={"Dp": "Dp"},
+             header="pub fn custom(&mut self, x: TextSlice<'_>, y: TextSlice<'_>) -> Alignment",
+             params=[("x", "TextSlice"), ("y", "TextSlice")], ret="Alignment", abstract=[SD, FKM, FT]),
+        dict(name="Aligner::custom_with_prehash", lean="customWithPrehash", callkey="Aligner::custom_with_prehash", self="Aligner",
+             self_mut=True, generics={"Dp": "Dp"},
+             header="pub fn custom_with_prehash( &mut self, x: TextSlice<'_>, y: TextSlice<'_>, "
+                    "y_kmer_hash: &HashMapFx<&[u8], Vec<u32>>, ) -> Alignment",
+             params=[("x", "TextSlice"), ("y", "TextSlice"), ("y_kmer_hash", KHASH)], ret="Alignment", abstract=[SD, FS2, FT]),
+        dict(name="Aligner::custom_with_matches", lean="customWithMatches", callkey="Aligner::custom_with_matches", self="Aligner",
+             self_mut=True, generics={"Dp": "Dp"},
+             header="pub fn custom_with_matches( &mut self, x: TextSlice<'_>, y: TextSlice<'_>, matches: &[(u32, u32)], ) -> Alignment",
+             params=[("x", "TextSlice"), ("y", "TextSlice"), ("matches", "&[(u32, u32)]")], ret="Alignment", abstract=[SD, FT]),
+        dict(name="Aligner::custom_with_expanded_matches", lean="customWithExpandedMatches",
+             callkey="Aligner::custom_with_expanded_matches", self="Aligner", self_mut=True, generics={"Dp": "Dp"},
+             header="pub fn custom_with_expanded_matches( &mut self, x: TextSlice<'_>, y: TextSlice<'_>, matches: Vec<(u32, u32)>, "
+                    "allowed_mismatches: Option<usize>, use_lcskpp_union: bool, ) -> Alignment",
+             params=[("x", "TextSlice"), ("y", "TextSlice"), ("matches", "Vec<(u32, u32)>"),
+                     ("allowed_mismatches", "Option<usize>"), ("use_lcskpp_union", "bool")], ret="Alignment",
+             abstract=[SD, EXP, UN, FT],
+             abs_calls={"sparse::expand_kmer_matches": dict(lean="expandKmerMatches", ret="Vec<(u32, u32)>", monadic=True,
+                                                            params=["TextSlice", "TextSlice", "usize", "&[(u32, u32)]", "usize"]),
+                        "sparse::sdpkpp_union_lcskpp_path": dict(lean="unionPath", ret="Vec<usize>", monadic=True,
+                                                                 params=["&[(u32, u32)]", "usize", "u32", "i32", "i32"])}),
+        dict(name="Aligner::custom_with_match_path", lean="customWithMatchPath", callkey="Aligner::custom_with_match_path",
+             self="Aligner", self_mut=True, generics={"Dp": "Dp"},
+             header="pub fn custom_with_match_path( &mut self, x: TextSlice, y: TextSlice, matches: &[(u32, u32)], "
+                    "path: &[usize], ) -> Alignment",
+             params=[("x", "TextSlice"), ("y", "TextSlice"), ("matches", "&[(u32, u32)]"), ("path", "&[usize]")],
+             ret="Alignment", abstract=[FT]),
+    ] + [
+        dict(name="Aligner::" + nm, lean=ln, callkey="Aligner::" + nm, self="Aligner", self_mut=True, generics={"Dp": "Dp"},
+             header="pub fn %s(&mut self, x: TextSlice<'_>, y: TextSlice<'_>) -> Alignment" % nm,
+             params=[("x", "TextSlice"), ("y", "TextSlice")], ret="Alignment", abstract=[SD, FKM, FT, FC], abs_calls=FC_CALL)
+        for nm, ln in (("global", "globalMode"), ("semiglobal", "semiglobalMode"), ("local", "localMode"))
+    ] + [
+        dict(name="Aligner::semiglobal_with_prehash", lean="semiglobalWithPrehash", callkey="Aligner::semiglobal_with_prehash",
+             self="Aligner", self_mut=True, generics={"Dp": "Dp"},
+             header="pub fn semiglobal_with_prehash( &mut self, x: TextSlice<'_>, y: TextSlice<'_>, "
+                    "y_kmer_hash: &HashMapFx<&[u8], Vec<u32>>, ) -> Alignment",
+             params=[("x", "TextSlice"), ("y", "TextSlice"), ("y_kmer_hash", KHASH)], ret="Alignment",
+             abstract=[SD, FS2, FT, FC], abs_calls=FC_CALL),
     ])
 
 
